@@ -91,6 +91,11 @@ type PageInfo struct {
 	Left, Top, Width, Height float64
 }
 
+type LineRec struct {
+	Y     float64  `json:"y"`
+	Words []string `json:"w"`
+}
+
 type PageGeom struct {
 	W, H           float64
 	MT, MR, MB, ML float64
@@ -115,6 +120,7 @@ type OpResult struct {
 	NPages      int               `json:"npages,omitempty"`
 	Pages       []PageInfo        `json:"pages,omitempty"`
 	PageWords   [][]string        `json:"page_words,omitempty"`
+	PageLines   [][]LineRec       `json:"page_lines,omitempty"`
 	Texts       []TextCall        `json:"texts,omitempty"`
 	Violations  []Violation       `json:"violations,omitempty"`
 	Anchors     [][]string        `json:"anchors,omitempty"`
